@@ -323,10 +323,8 @@ pub fn check(c: &AiCase, probe: &Probe) -> Verdict {
             let after = um.split_once(conds[*i].as_str()).map(|x| x.1).unwrap_or("");
             // the content must be carried *as trimmed*: an occurrence that starts at a line start (or after ": ")
             // and is followed by nothing, or by a line break and further text — not by left-over white space
-            let carried = if want_content.is_empty() {
-                true
-            } else {
-                after.match_indices(want_content.as_str()).any(|(p, m)| {
+            let carries = |needle: &str| {
+                after.match_indices(needle).any(|(p, m)| {
                     let before = &after[..p];
                     let tail = &after[p + m.len()..];
                     let ok_before = before.is_empty() || before.ends_with('\n') || before.ends_with(": ");
@@ -334,6 +332,16 @@ pub fn check(c: &AiCase, probe: &Probe) -> Verdict {
                     ok_before && ok_after
                 })
             };
+            if want_content.is_empty() {
+                // an empty extract: no distinctive piece of the content (a token of >= 2 bytes holding a digit)
+                // may be carried as if it were the content
+                for tok in raw.split(|ch: char| ch.is_whitespace()).filter(|t| t.len() >= 2 && t.bytes().any(|b| b.is_ascii_digit())) {
+                    if carries(tok) {
+                        return Verdict::Fail(show(&format!("request for ai{i}: the pattern has no match in the content (as one text), yet the message carries {tok:?} in the content's place: {um:?}"), &out));
+                    }
+                }
+            }
+            let carried = want_content.is_empty() || carries(want_content.as_str());
             if !carried {
                 return Verdict::Fail(show(&format!("request for ai{i} does not carry the block's content verbatim: expected the message to carry {want_content:?} after the condition, message is {um:?}"), &out));
             }
@@ -404,8 +412,48 @@ pub fn case_strategy() -> BoxedStrategy<AiCase> {
         .boxed()
 }
 
+/// Small scope for the pattern extract: every pattern of the family x contents in which only a NON-last line (or
+/// only the last one) could match a line-anchored reading of the pattern. The extract is the first match in the
+/// content as one text (`^` / `$` are the text's ends), empty if none.
+pub fn extract_cases() -> Vec<AiCase> {
+    let contents: &[&[&str]] = &[
+        &["tail 99", "next line"],
+        &["kab then", "id:7 x", "k = 5"],
+        &["plain", "p:abc", "zz 12"],
+        &["a", "b"],
+        &["only 42"],
+        &["x 1", "", "y"],
+    ];
+    let mut out = vec![];
+    for p in 0..models::KEY_PATS.len() as u8 {
+        for (k, ls) in contents.iter().enumerate() {
+            for file in [0u8, 2] {
+                out.push(AiCase {
+                    blocks: vec![AiBlock {
+                        condition: format!("extract {p}/{k}"),
+                        lines: ls.iter().map(|l| l.to_string()).collect(),
+                        pattern: Some(p),
+                        reply: 0,
+                        warning: false,
+                        file,
+                        multiline_condition: false,
+                        plain_before: false,
+                        twin: false,
+                    }],
+                    fault: None,
+                    key: "k-extract".into(),
+                    model: "m".into(),
+                    diff_mode: (p as usize + k) % 2 == 0,
+                });
+            }
+        }
+    }
+    out
+}
+
 pub fn run(run: &mut Run) {
-    run.rule = "random: 1..8 check-ai blocks spread over up to 3 files (Python `#` comments, or a JavaScript block comment with the condition spread over two lines), conditions and contents over printable ASCII incl. quotes, backslashes, braces, escapes, plus Unicode/NBSP/emoji, optional check-ai-pattern from the key-pattern family, plain blocks without check-ai in front of 25% of them, 20% twins of the previous block (same condition, content, pattern and reply: one request each all the same), severity warning in 20%, scan or new-file diff mode, two keys and two model names; in half of the cases the OpenAI SDK's own OPENAI_API_KEY / OPENAI_BASE_URL / OPENAI_ORG_ID variables are set to foreign values; reply per block from 20 texts (OK, ok, Ok., OK., oK, ` OK`, `OK `, OKAY, OK.., multi-line, quotes/backslashes/tab, Unicode, empty, Greek / full-width / digit-zero / zero-width look-alikes of OK); in 45% one fault from 14 kinds (no key, empty key, connection refused, 400/401 JSON, 404/400 plain, 200 invalid JSON, 200 without choices, empty choices, null content, closed mid-body, closed at once, empty body) injected on the k-th arriving request. A recording fake endpoint is the observer. Non-trivial = a fault case, or >= 2 blocks with content that JSON must escape.".into();
+    run.enumerate("extracts", extract_cases(), Some("every pattern of the key-pattern family x 6 multi-line contents x {Python, JavaScript} host"), check);
+    run.rule = "enumerated extracts: one check-ai block per (pattern of the key-pattern family, one of 6 multi-line contents in which only a non-last line or only the last line could match a line-anchored reading, Python or JavaScript host): the request must carry the first match in the content taken as ONE text. random: 1..8 check-ai blocks spread over up to 3 files (Python `#` comments, or a JavaScript block comment with the condition spread over two lines), conditions and contents over printable ASCII incl. quotes, backslashes, braces, escapes, plus Unicode/NBSP/emoji, optional check-ai-pattern from the key-pattern family, plain blocks without check-ai in front of 25% of them, 20% twins of the previous block (same condition, content, pattern and reply: one request each all the same), severity warning in 20%, scan or new-file diff mode, two keys and two model names; in half of the cases the OpenAI SDK's own OPENAI_API_KEY / OPENAI_BASE_URL / OPENAI_ORG_ID variables are set to foreign values; reply per block from 20 texts (OK, ok, Ok., OK., oK, ` OK`, `OK `, OKAY, OK.., multi-line, quotes/backslashes/tab, Unicode, empty, Greek / full-width / digit-zero / zero-width look-alikes of OK); in 45% one fault from 14 kinds (no key, empty key, connection refused, 400/401 JSON, 404/400 plain, 200 invalid JSON, 200 without choices, empty choices, null content, closed mid-body, closed at once, empty body) injected on the k-th arriving request. A recording fake endpoint is the observer. Non-trivial = a fault case, or >= 2 blocks with content that JSON must escape.".into();
     run.assumptions = vec![
         "429 and 5xx are not injected: the client library retries them with back-off for minutes and the statement does not list them".into(),
         "which block the k-th arriving request belongs to is not controlled".into(),
